@@ -19,9 +19,9 @@ from mirsym.values import *  # noqa: E402,F401
 from mirsym.mirparse import Unsupported  # noqa: E402
 
 VERIF = os.path.dirname(os.path.dirname(os.path.abspath(__file__)))
-CACHE = os.path.join(VERIF, '.cache')
-EVIDENCE = os.path.join(VERIF, 'evidence')
-REPLAYS = os.path.join(VERIF, 'replays')
+CACHE = os.environ.get('VERIF_CACHE') or os.path.join(VERIF, '.cache')
+EVIDENCE = os.environ.get('VERIF_EVIDENCE') or os.path.join(VERIF, 'evidence')
+REPLAYS = os.environ.get('VERIF_REPLAYS') or os.path.join(VERIF, 'replays')
 KNOWN = os.path.join(VERIF, 'known_findings.txt')
 
 TIER = os.environ.get('VERIF_TIER', 'quick')
@@ -219,7 +219,17 @@ def build_driver(profile='dev'):
     env['CARGO_TARGET_DIR'] = os.path.join(CACHE, 'replay-target')
     env.pop('RUSTFLAGS', None)
     cmd = ['cargo', 'build', '--offline', '-q'] + (['--release'] if profile == 'release' else [])
-    p = subprocess.run(cmd, cwd=os.path.join(VERIF, 'replay'), env=env, capture_output=True, text=True)
+    crate = os.path.join(VERIF, 'replay')
+    if os.path.abspath(dump.REPO) != '/repo':
+        # checks pointed at another copy of the repository (seed runs): same driver sources, path dependency redirected
+        import shutil
+        crate = os.path.join(CACHE, 'replay-crate')
+        os.makedirs(os.path.join(crate, 'src'), exist_ok=True)
+        shutil.copy(os.path.join(VERIF, 'replay', 'src', 'main.rs'), os.path.join(crate, 'src', 'main.rs'))
+        shutil.copy(os.path.join(VERIF, 'replay', 'Cargo.lock'), os.path.join(crate, 'Cargo.lock'))
+        toml = open(os.path.join(VERIF, 'replay', 'Cargo.toml')).read().replace('path = "/repo"', 'path = "%s"' % os.path.abspath(dump.REPO))
+        open(os.path.join(crate, 'Cargo.toml'), 'w').write(toml)
+    p = subprocess.run(cmd, cwd=crate, env=env, capture_output=True, text=True)
     if p.returncode != 0:
         raise RuntimeError('replay driver build failed:\n' + p.stderr[-3000:])
     path = os.path.join(CACHE, 'replay-target', 'release' if profile == 'release' else 'debug', 'rsbdd_replay')
